@@ -48,13 +48,70 @@ class Ctx:
         return self.M.lookup(c, name, table)
 
 
+def analyser_digest(root):
+    """the cached call graph depends on the analyser's own code as much as on the analysed sources"""
+    import hashlib
+    import glob
+    import os
+    h = hashlib.sha256()
+    for f in sorted(glob.glob(os.path.join(root, "nixsa", "*.py"))):
+        with open(f, "rb") as fh:
+            h.update(fh.read())
+    return h.hexdigest()
+
+
+def private_helper(ctx, cname, name, callers, pick=None, table="methods"):
+    """a private helper by name, or -- when a refactoring renamed / re-homed it -- by role: the one private function that
+    every member in `callers` ((class, member, table) triples) calls; `pick` narrows by signature. None when ambiguous."""
+    f = ctx.member(cname, name, table)
+    if f is not None:
+        return f
+    M = ctx.M
+    cand = None
+    for spec in callers:
+        g = ctx.member(*spec) if isinstance(spec, tuple) else spec
+        if g is None:
+            return None
+        got = set()
+        for q in ctx.cg.edges.get(g.qual, ()):
+            h = M.funcs.get(q)
+            if h is None:
+                continue
+            nm = h.node.name
+            if nm.startswith("_") and not (nm.startswith("__") and nm.endswith("__")) and (pick is None or pick(h)):
+                got.add(q)
+        cand = got if cand is None else cand & got
+    if cand and len(cand) == 1:
+        return M.funcs[next(iter(cand))]
+    return None
+
+
+def tree_finders(ctx):
+    """the two breadth-first tree searches {"sections": Func, "sources": Func}: by name, else the private function the
+    public find_sections / find_sources members call"""
+    out = {}
+    for kind, cn in (("sections", "Section"), ("sources", "Source")):
+        f = ctx.M.funcs.get("nixio.util.find:_find_" + kind)
+        if f is None:
+            f = private_helper(ctx, cn, "_find_" + kind, [(cn, "find_" + kind, "methods")], pick=lambda h: h.cls is None)
+        out[kind] = f
+        if f is not None and f.qual not in ctx.cfg.opaque:
+            # keep the renamed finder a call event, as the engine's table does for the original name
+            ctx.cfg.opaque[f.qual] = ("list", ("obj", cn))
+    return out
+
+
 def load_callgraph(M):
     """resolved call graph, cached on disk by the digest of the analysed sources"""
     import os
     import pickle
     from nixsa.callgraph import CallGraph
-    d = os.path.join(os.path.dirname(os.path.dirname(os.path.abspath(__file__))), ".cache")
-    p = os.path.join(d, "cg2-%s.pkl" % M.digest[:24])
+    root = os.path.dirname(os.path.dirname(os.path.abspath(__file__)))
+    scratch = bool(os.environ.get("NIXSA_EVIDENCE_DIR"))
+    d = os.environ.get("NIXSA_CACHE_DIR") or (None if scratch else os.path.join(root, ".cache"))
+    if d is None:
+        return CallGraph(M)     # scratch run without a cache directory of its own: leave nothing behind
+    p = os.path.join(d, "cg3-%s-%s.pkl" % (M.digest[:24], analyser_digest(root)[:12]))
     if os.path.exists(p):
         try:
             with open(p, "rb") as fh:
@@ -66,8 +123,6 @@ def load_callgraph(M):
         except Exception:
             pass
     cg = CallGraph(M)
-    if os.environ.get("NIXSA_EVIDENCE_DIR"):
-        return cg               # scratch run (self-validation): leave no cache behind
     try:
         os.makedirs(d, exist_ok=True)
         tmp = p + ".%d.tmp" % os.getpid()
